@@ -27,7 +27,7 @@ deriving DecidableEq, Repr, Inhabited
 
 /-- the two type-specific conversions of the header -/
 class CoordIO (α : Type) where
-  /-- `tot += it->length()` on a `size_t tot` (Range.h:359, 523): the usual arithmetic
+  /-- `tot += it->length()` on a `size_t tot` (Range.h:360, 525): the usual arithmetic
   conversions of the compound assignment, for each coordinate type -/
   accLen : Nat → α → Nat
   /-- `TextTools::toString(T)` = `std::ostringstream << t` (TextTools.h:115) -/
@@ -100,30 +100,33 @@ namespace RangeCollection
 section
 variable {α : Type}
 
-/-- `toString` (Range.h:336-345, 486-495). -/
+/-- `toString` (Range.h:337-346, 488-497). -/
 def toString [CoordIO α] (s : List (Range α)) : String :=
   "{ " ++ String.join (s.map (fun x => x.toString ++ " ")) ++ "}"
 
-/-- `isEmpty` (Range.h:347, 514). -/
+/-- `isEmpty` (Range.h:348, 516). -/
 def isEmpty (s : List (Range α)) : Bool := s.length == 0
-/-- `size` (Range.h:349, 516). -/
+/-- `size` (Range.h:350, 518). -/
 def size (s : List (Range α)) : Nat := s.length
 
-/-- `totalLength` (Range.h:354-362, 518-526): a `size_t` accumulator. -/
+/-- `totalLength` (Range.h:355-363, 520-528): a `size_t` accumulator. -/
 def totalLength [Sub α] [CoordIO α] (s : List (Range α)) : Nat :=
   s.foldl (fun tot x => CoordIO.accLen tot x.length) 0
 
-/-- `getRange(i)` (Range.h:364, 528): `*ranges_[i]`; out of range is undefined behaviour of
+/-- `getRange(i)` (Range.h:365, 530): `*ranges_[i]`; out of range is undefined behaviour of
 `std::vector::operator[]`, modelled as `none` (never a made-up range). -/
 def getRange? (s : List (Range α)) (i : Nat) : Option (Range α) := s[i]?
 
-/-- `clear` (Range.h:373, 530). -/
+/-- `clear` (Range.h:374, 532). -/
 def clear (_ : List (Range α)) : List (Range α) := []
 
-/-- copy constructor and `operator=` (Range.h:271-287, 401-417): the target is emptied and
-receives a clone of every element, in order. -/
+/-- copy constructor (Range.h:271-277, 402-408): a clone of every element, in order. -/
 def copy (src : List (Range α)) : List (Range α) := src.map Range.clone
-def assign (tgt src : List (Range α)) : List (Range α) := clear tgt ++ src.map Range.clone
+/-- `operator=` (Range.h:279-289, 410-420): self-assignment (`this == &set`) leaves the object
+alone — the guard was added by the round-2 repair, the unguarded code emptied the object —
+otherwise the target is emptied and receives a clone of every element, in order. -/
+def assign (self : Bool) (tgt src : List (Range α)) : List (Range α) :=
+  if self then tgt else clear tgt ++ src.map Range.clone
 
 end
 end RangeCollection
@@ -132,13 +135,13 @@ end RangeCollection
 namespace RangeSet
 section
 variable {α : Type} [LE α] [LT α] [DecidableLE α] [DecidableLT α] [DecidableEq α] [OfNat α 0]
-/-- `addRange` (Range.h:295-299). -/
+/-- `addRange` (Range.h:296-300). -/
 def addRange (s : List (Range α)) (r : Range α) : List (Range α) :=
   if r.isEmpty then s else s ++ [r.clone]
-/-- `restrictTo` (Range.h:301-317). -/
+/-- `restrictTo` (Range.h:302-318). -/
 def restrictTo (s : List (Range α)) (r : Range α) : List (Range α) :=
   (s.map (·.sliceWith r)).filter (fun x => !x.isEmpty)
-/-- `filterWithin` (Range.h:319-334). -/
+/-- `filterWithin` (Range.h:320-335). -/
 def filterWithin (s : List (Range α)) (r : Range α) : List (Range α) :=
   s.filter (fun x => r.contains x)
 end
@@ -156,7 +159,7 @@ def insertBy (lt : Range α → Range α → Bool) (x : Range α) : List (Range 
   | [] => [x]
   | y :: ys => if lt x y then x :: y :: ys else y :: insertBy lt x ys
 
-/-- Stand-in for `std::sort(ranges_.begin(), ranges_.end(), rangeComp_)` (Range.h:540):
+/-- Stand-in for `std::sort(ranges_.begin(), ranges_.end(), rangeComp_)` (Range.h:542):
 insertion sort with the source comparator. -/
 def sortBy (lt : Range α → Range α → Bool) : List (Range α) → List (Range α)
   | [] => []
@@ -164,7 +167,7 @@ def sortBy (lt : Range α → Range α → Bool) : List (Range α) → List (Ran
 
 variable [LE α] [LT α] [DecidableLE α] [DecidableLT α] [DecidableEq α] [OfNat α 0]
 
-/-- `clean_` (Range.h:536-555): sort, then drop the empty ranges. -/
+/-- `clean_` (Range.h:538-557): sort, then drop the empty ranges. -/
 def clean (m : List (Range α)) : List (Range α) :=
   (sortBy Range.lt m).filter (fun x => !x.isEmpty)
 
@@ -185,17 +188,17 @@ def mergeInto (r : Range α) : List (Range α) → Option (Range α × List (Ran
       | none => none
       | some (mg, l) => some (mg, x :: l)
 
-/-- `addRange` (Range.h:425-455). -/
+/-- `addRange` (Range.h:427-457). -/
 def addRange (m : List (Range α)) (r : Range α) : List (Range α) :=
   match mergeInto r m with
   | none => clean (m ++ [r.clone])
   | some (_, l) => clean l
 
-/-- `restrictTo` (Range.h:457-464). -/
+/-- `restrictTo` (Range.h:459-466). -/
 def restrictTo (m : List (Range α)) (r : Range α) : List (Range α) :=
   clean (m.map (·.sliceWith r))
 
-/-- `filterWithin` (Range.h:466-481). -/
+/-- `filterWithin` (Range.h:468-483). -/
 def filterWithin (m : List (Range α)) (r : Range α) : List (Range α) :=
   m.filter (fun x => r.contains x)
 
@@ -204,7 +207,7 @@ end
 def totalLength {α : Type} [Sub α] [CoordIO α] (m : List (Range α)) : Nat :=
   RangeCollection.totalLength m
 
-/-- `getBounds` (Range.h:500-509). -/
+/-- `getBounds` (Range.h:502-511). -/
 def getBounds {α : Type} (m : List (Range α)) : List α := m.flatMap (fun x => [x.b, x.e])
 
 end MultiRange
